@@ -422,10 +422,23 @@ package http2
 //@ # Decoding tree nodes as built by (*huffmanNode).add at package initialisation: an inner node has a 256-entry table,
 //@ # a leaf has none and stands for a code whose last fragment is 1..8 bits long
 //@ heapinvariant huffmanNode shape: (self.sub == nil || len(self.sub) == 256) && (self.sub == nil ==> self.codeLen >= 1 && self.codeLen <= 8)
+//@ # The decoding tree is the byte-indexed prefix tree of the RFC 7541 Appendix B code (spec/41_huffman_tree.smt2, generated
+//@ # from the code table by its definition, 15 nodes): spec.hid says which tree node an inner node object stands for, and every
+//@ # one of its 256 entries is what the tree has there - nothing, a leaf with that symbol and that many bits, or the child node.
+//@ # The tree is built once by the initialiser of rootHuffmanNode and never written again; this invariant is not derived from
+//@ # the code of (*huffmanNode).add but compared with the tree the real initialiser builds, entry by entry, on every run
+//@ # (obligation tables/huffmanTree).
+//@ heapinvariant huffmanNode tree: self.sub != nil ==> 0 <= spec.hid(self) && spec.hid(self) < 15 &&
+//@ |   forall(b, 0, 256, (spec.hkind(spec.hid(self), b) == 0 ==> self.sub[b] == nil) &&
+//@ |     (spec.hkind(spec.hid(self), b) == 1 ==> self.sub[b] != nil && self.sub[b].sub == nil && self.sub[b].sym == spec.hsym(spec.hid(self), b) &&
+//@ |        self.sub[b].codeLen == spec.hlen(spec.hid(self), b)) &&
+//@ |     (spec.hkind(spec.hid(self), b) == 2 ==> self.sub[b] != nil && self.sub[b].sub != nil && spec.hid(self.sub[b]) == spec.hchild(spec.hid(self), b)))
 
-//@ # the decoding tree is built once, by the initialiser of rootHuffmanNode, and never assigned again (checked over the SSA);
-//@ # that the root is an inner node with a full table is trusted, like the shape invariant above
-//@ globalinvariant rootHuffmanNode root: self != nil && len(self.sub) == 256
+//@ # the decoding tree is built once, by the initialiser of rootHuffmanNode, and never assigned again (checked over the SSA)
+//@ globalinvariant rootHuffmanNode root: self != nil && len(self.sub) == 256 && spec.hid(self) == 0
+
+//@ macro hpadok(a, k) = k == 0 || (k == 1 && a % 2 == 1) || (k == 2 && a % 4 == 3) || (k == 3 && a % 8 == 7) || (k == 4 && a % 16 == 15) ||
+//@ |   (k == 5 && a % 32 == 31) || (k == 6 && a % 64 == 63) || (k == 7 && a % 128 == 127)
 
 //@ func HuffmanDecode
 //@ props C15 C16 C03
@@ -443,6 +456,30 @@ package http2
 //@ loop 2: invariant node: root != nil && len(root.sub) == 256 && bits >= 0 && bits < 8
 //@ loop 2: invariant out: (len(dst) - len(old(dst))) + bits <= 8 * len(src)
 //@ loop 2: invariant place: (samearray(dst, old(dst)) && offset(dst) == offset(old(dst)) && cap(dst) == cap(old(dst))) || fresh(dst)
+//@ # ---- the decoder is a faithful interpreter of the code tree (C15, C03) ----
+//@ # bitsLeft counts the bits taken in since the last complete symbol: those still pending plus one octet per tree level walked
+//@ loop 0: invariant left: bitsLeft == bits + 8 * spec.hdepth(spec.hid(root))
+//@ loop 1: invariant left: bitsLeft == bits + 8 * spec.hdepth(spec.hid(root))
+//@ loop 2: invariant left: bitsLeft == bits + 8 * spec.hdepth(spec.hid(root))
+//@ # one step with a whole octet pending: the entry looked up is the one of the current node for the eight oldest pending
+//@ # bits; an inner entry is walked into, a leaf appends its symbol, uses up its bits and goes back to the root
+//@ loop 1: step index: idx == (atiter(accBits) >> (atiter(bits) - 8)) % 256
+//@ let i1 = idx
+//@ let n1 = spec.hid(atiter(root))
+//@ loop 1: step walk: spec.hkind(n1, i1) != 0 &&
+//@ |   (spec.hkind(n1, i1) == 2 ==> spec.hid(root) == spec.hchild(n1, i1) && bits == atiter(bits) - 8 && len(dst) == atiter(len(dst)) && bitsLeft == atiter(bitsLeft)) &&
+//@ |   (spec.hkind(n1, i1) == 1 ==> root == rootHuffmanNode && bits == atiter(bits) - spec.hlen(n1, i1) && len(dst) == atiter(len(dst)) + 1 &&
+//@ |      dst[len(dst) - 1] == spec.hsym(n1, i1) && bitsLeft == bits)
+//@ # the tail: fewer than eight bits pending, padded with zeros to index the current node; a symbol is taken only if it is a
+//@ # leaf that needs no more bits than are there
+//@ loop 2: step index: idx == (atiter(accBits) << (8 - atiter(bits))) % 256
+//@ let i2 = idx
+//@ let n2 = spec.hid(atiter(root))
+//@ loop 2: step emit: spec.hkind(n2, i2) == 1 && spec.hlen(n2, i2) <= atiter(bits) && root == rootHuffmanNode && bits == atiter(bits) - spec.hlen(n2, i2) &&
+//@ |   len(dst) == atiter(len(dst)) + 1 && dst[len(dst) - 1] == spec.hsym(n2, i2) && bitsLeft == bits
+//@ # what is accepted ends with fewer than eight bits that belong to no symbol, all of them 1 (RFC 7541 5.2)
+//@ ensures leftok: r1 == nil ==> local(bitsLeft) <= 7
+//@ ensures pad: r1 == nil ==> local(bits) <= 7 && hpadok(local(accBits), local(bits))
 //@ ensures keep: r1 == nil ==> len(r0) >= len(dst) && r0[:len(dst)] == old(dst)
 //@ ensures err: r1 != nil ==> r0 == nil
 //@ ensures bound: r1 == nil ==> len(r0) - len(dst) <= 8 * len(src)
